@@ -299,13 +299,15 @@ theorem union_contains {β : Type} (srcs : List (Op β)) (hs : ∀ o ∈ srcs, o
 
 /-- **every nesting**: by induction over the pipeline syntax (`from_container` leaves,
     `filter_zoom`, `filter_bbox`, `from_overlayed`, `from_vectortiles_merged`,
-    `vectortiles_update_properties`, nested arbitrarily): if every leaf source is good (C02) and
+    `vectortiles_update_properties`, `from_debug`, nested arbitrarily; coordinates of the pyramid –
+    `from_debug` also answers `x ≥ 2^z`, which no pyramid contains): if every leaf source is good (C02) and
     covers its tiles, then every pipeline that builds covers its tiles – whatever a lookup of the
     built operation returns lies inside the pyramid it advertises. -/
 theorem pipe_covers {β : Type} (ops : Ops β) (env : Nat → Outcome (Op β))
-    (henv : ∀ i o, env i = .ok o → Good o.src ∧ Covers o.src)
-    (p : Pipe) (o : Op β) (h : build ops env p = .ok o) : Covers o.src :=
-  (VtProofs.PipeCovers.build_gc ops env henv p o h).2
+    (henv : ∀ i o, env i = .ok o → Good o.src ∧ VtProofs.PipeCovers.CoversV o.src)
+    (p : Pipe) (hd : p.DebugOK) (o : Op β) (h : build ops env p = .ok o) :
+    ∀ c v, Coord.Valid c → o.src.lookup c = .ok (some v) → Pyramid.has o.src.cover c = true :=
+  (VtProofs.PipeCovers.build_gc ops env henv p hd o h).2
 
 /-- converter without a requested pyramid (`versatiles serve` with `--flip-y` or `--swap-xy`): see
     `VtProps.C06.convert_covers_partial`; with a requested pyramid the statement is *false* on the
